@@ -13,7 +13,7 @@ E1_TECH = "explicit-state BFS to closure over operation histories of the real tr
 
 CHECKS = {
  "C01": ("model_checking", "E1-HIST", E1_TECH, E1_NOTE,
-         "Every Insert/Delete history over each small key universe (all six kinds, ~20 key-type instantiations, fan-out windows across every size-class boundary, paths around the 10-byte inline limit, 0x00..0xFF branch bytes) is explored to closure on the real trees; every call result and Search of every probe in every reachable state is compared with an ideal map. Known finding D9 (NUL-terminator scheme) is reported as KNOWN-FINDING."),
+         "Every Insert/Delete history (closure; plus warmed, poisoned and drain-to-empty variants of every transition/state) over each small key universe (all six kinds, ~20 key-type instantiations, fan-out windows across every size-class boundary, paths around the 10-byte inline limit, 0x00..0xFF branch bytes) is explored to closure on the real trees; every call result and Search of every probe in every reachable state is compared with an ideal map. Known finding D9 (NUL-terminator scheme) is reported as KNOWN-FINDING."),
  "C02": ("model_checking", "E1-HIST", E1_TECH, E1_NOTE,
          "All()/Backward() are compared with the reference sorted by an independent comparator in every reachable state of the closures."),
  "C03": ("model_checking", "E1-HIST", E1_TECH, E1_NOTE,
@@ -50,7 +50,7 @@ CHECKS = {
          "Every schedule within the preemption bound of 2-3 goroutines on private trees with pool traffic on every size class, and of concurrent read-only query mixes on one shared tree, must give every goroutine its sequential observations, leave every tree well-formed and the shared tree byte-identical; a free-running -race pass of the same bodies must be report-free."),
  "C17": ("exploration", "E5-HEAP", "exhaustive enumeration of (reachable state, operation cycle) pairs of small closures; per pair a live-heap measurement after forced collections against a fixed threshold",
          "The set of (state, cycle) pairs is exhaustive for the listed universes; the verdict per pair is a measurement (HeapAlloc after two forced GCs) with thresholds two orders of magnitude from both behaviours; violations are re-measured before being reported.",
-         "Every operation cycle (queries, overwrites, absent deletes, delete/insert churn incl. grow/shrink thresholds) of every reachable state is pumped 4*10^4 times and the live heap must not grow; 200 trees per state are churned and emptied and must retain only a small constant."),
+         "Every operation cycle (queries, overwrites, absent deletes, delete/insert churn incl. grow/shrink thresholds) of every reachable state is pumped 4*10^4 times and the live heap must not grow; 200 trees per state are churned and emptied and must retain only a small constant; a sliding window over an unbounded stream of fresh keys is pumped for every (key-group shape, deletion order) pair at bounded size."),
  "C18": ("model_checking", "E1-HIST", E1_TECH + "; the garbage collector is an enumerated environment event",
          "Collections at operation boundaries only (every position; thorough: every subset of positions for histories <= 8 operations); GODEBUG=clobberfree=1, GC percent 1, checkptr-instrumented build; collections inside operations are not explored by this check.",
          "Closures for every tree kind x 7 value types with keys/values as fresh heap objects referenced only by the tree and a forced collection after every operation; deep equality of every stored key and value with the reference in every reachable state; checkptr faults and runtime fatal errors are violations."),
